@@ -6,4 +6,4 @@ def run(ctx):
     run_kernel(ctx, "C05", [
         dict(profile="c05", kind="poly", traces=(48, 800), ops=32, queries=0),
         dict(profile="c05", kind="tet", traces=(16, 200), ops=32, queries=0),
-    ], level_when_proved="other")
+    ], level_when_proved="other", extra_props=("C05Tet", "C05Cyc"))
